@@ -870,6 +870,30 @@ def gen_out_timing(m, d):
     return out
 
 
+def gen_out_overflow_resume(m, d, lens=None, frees=None):
+    """The buffer is (nearly) full with the consumer stalled, so the next packet overflows in its *middle*; the consumer
+    resumes at every cycle offset from the OUT token to after the handshake, so that for some offsets the packet's last
+    bytes are written again although earlier ones were lost.  The endpoint must NAK such a packet and deliver none of
+    it (or, if everything fitted after all, ACK and deliver it once).  Then the host PINGs and repeats the packet with
+    the same toggle (accepted now if it was NAKed, skipped if it had been ACKed), sends one more packet, and the trace
+    ends with the drain: the stream must be exactly the ACKed payloads."""
+    out = []
+    for n in (lens or sorted({m, m - 1, max(2, m // 2)} - {0, 1})):
+        for free in sorted({0, 1, n - 2} & set(range(0, n - 1))):
+            if free > d or (frees is not None and free not in frees):
+                continue
+            for delay in range(0, 24 + n):
+                h = OutHost(None, m, d, clean=False)
+                h.val = 32 * n + 8 * free + delay
+                _prefill(h, d - free)
+                pl = h.payload(n)
+                h.ops += [("at", delay, ("cons", 1, ("ready",))), ("out", 1, h.tog, pl, True), ("ping", 1),
+                          ("idle", d + 4), ("out", 1, h.tog, pl, True), ("idle", n + 3),
+                          ("out", 1, h.tog ^ 1, h.payload(1), True), ("end",)]
+                out.append((h.ops, {"gen": "overflow-resume", "n": n, "free": free, "delay": delay, "class": "sweep"}))
+    return out
+
+
 def gen_out_witness_overflow(rng, m, d):
     """Consumer stalled while the host keeps sending: some packet does not fit (defect trigger C13-ack-after-overflow)."""
     h = OutHost(rng, m, d, clean=False)
@@ -974,6 +998,12 @@ def check_C13(rep):
     for m, d in ((2, 3), (4, 7)) if quick else ((2, 3), (3, 5), (4, 7), (4, 8), (8, 15)):
         for ops, meta in gen_out_timing(m, d):
             jobs.append({"eps": out_eps(m, d), "script": ops, "seed": rep.seed, "meta": dict(meta, max=m, depth=d)})
+    for m, d in () if quick else ((2, 3), (3, 5), (4, 7), (8, 15)):      # FS device: thorough only (FS assembly below)
+        for ops, meta in gen_out_overflow_resume(m, d):
+            jobs.append({"eps": out_eps(m, d), "script": ops, "seed": rep.seed, "meta": dict(meta, max=m, depth=d)})
+    for ops, meta in gen_out_overflow_resume(8, 15, lens=(8,), frees=(0, 6) if quick else None):   # longer packet, HS
+        jobs.append({"eps": out_eps(8, 15), "script": ops, "seed": rep.seed, "speed": 0,
+                     "meta": dict(meta, max=8, depth=15)})
     # the same endpoint in the packet-layer assembly with pinned link speed: high-speed inter-packet timing (handshake
     # requested one cycle after the packet ends) and full-speed timing at 60 MHz
     for speed in (0, 1):
@@ -983,6 +1013,10 @@ def check_C13(rep):
                              "meta": dict(meta, max=m, depth=d)})
         for m, d in ((4, 7),) if quick else ((2, 3), (4, 7), (8, 15)):
             for ops, meta in gen_out_ping_sweep(m, d):
+                jobs.append({"eps": out_eps(m, d), "script": ops, "seed": rep.seed, "speed": speed,
+                             "meta": dict(meta, max=m, depth=d)})
+            for ops, meta in gen_out_overflow_resume(m, d, lens=None if (speed == 0 or not quick) else (m,),
+                                                     frees=None if (speed == 0 or not quick) else (0,)):
                 jobs.append({"eps": out_eps(m, d), "script": ops, "seed": rep.seed, "speed": speed,
                              "meta": dict(meta, max=m, depth=d)})
             if speed == 0 or not quick:
